@@ -25,34 +25,34 @@ theorem kind_ok (k : Kind) (h : kindString k ≠ []) : typeNames.contains (kindS
 section attrs
 variable (v : Version)
 
-theorem attrOK_type_str (k : Kind) (h : kindString k ≠ []) : attrOK v (s "type", .str (kindString k)) = true := by
+theorem attrCoreOK_type_str (k : Kind) (h : kindString k ≠ []) : attrCoreOK v (s "type", .str (kindString k)) = true := by
   have := kind_ok k h
   simp only [contains_eq_mem, decide_eq_true_eq] at this
-  cases v <;> simp [attrOK, this]
+  cases v <;> simp [attrCoreOK, this]
 
-theorem attrOK_strKey (key : B) (x : B) (hk : key ≠ s "type")
+theorem attrCoreOK_strKey (key : B) (x : B) (hk : key ≠ s "type")
     (hm : key ∈ [s "format", s "pattern", s "example", s "description"]) :
-    attrOK v (key, .str x) = true := by
+    attrCoreOK v (key, .str x) = true := by
   simp only [mem_cons, not_mem_nil, or_false] at hm
-  cases v <;> simp [attrOK, hk] <;> simp [hm]
+  cases v <;> simp [attrCoreOK, hk] <;> simp [hm]
 
-theorem attrOK_required (xs : List B) (h1 : xs.isEmpty = false) (h2 : xs.Nodup) :
-    attrOK v (s "required", .strs xs) = true := by
-  cases v <;> simp [attrOK, h1, (nodupB_iff xs).2 h2] <;> simpa using h1
+theorem attrCoreOK_required (xs : List B) (h1 : xs.isEmpty = false) (h2 : xs.Nodup) :
+    attrCoreOK v (s "required", .strs xs) = true := by
+  cases v <;> simp [attrCoreOK, h1, (nodupB_iff xs).2 h2] <;> simpa using h1
 
-theorem attrOK_enum (xs : List B) (h1 : xs.isEmpty = false) : attrOK v (s "enum", .strs xs) = true := by
+theorem attrCoreOK_enum (xs : List B) (h1 : xs.isEmpty = false) : attrCoreOK v (s "enum", .strs xs) = true := by
   have : s "enum" ≠ s "required" := by decide
-  cases v <;> simp [attrOK, this] <;> simpa using h1
+  cases v <;> simp [attrCoreOK, this] <;> simpa using h1
 
-theorem attrOK_len (key : B) (n : Nat) (hm : key ∈ [s "maxLength", s "minLength"]) :
-    attrOK v (key, .num (itoa n)) = true := by
+theorem attrCoreOK_len (key : B) (n : Nat) (hm : key ∈ [s "maxLength", s "minLength"]) :
+    attrCoreOK v (key, .num (itoa n)) = true := by
   simp only [mem_cons, not_mem_nil, or_false] at hm
-  cases v <;> simp [attrOK, hm, isNatText_itoa]
+  cases v <;> simp [attrCoreOK, hm, isNatText_itoa]
 
-theorem attrOK_bound (key : B) (x : B) (hn : key ∉ [s "maxLength", s "minLength"])
-    (hm : key ∈ [s "maximum", s "minimum"]) : attrOK v (key, .num x) = true := by
+theorem attrCoreOK_bound (key : B) (x : B) (hn : key ∉ [s "maxLength", s "minLength"])
+    (hm : key ∈ [s "maximum", s "minimum"]) : attrCoreOK v (key, .num x) = true := by
   simp only [mem_cons, not_mem_nil, or_false, not_or] at hm hn
-  cases v <;> simp [attrOK, hn] <;> simp [hm]
+  cases v <;> simp [attrCoreOK, hn] <;> simp [hm]
 end attrs
 
 theorem all_optAttr (P : B × Sc → Bool) (k : String) (c : Bool) (x : Sc) (h : c = true → P (s k, x) = true) :
@@ -63,70 +63,87 @@ theorem all_optAttr (P : B × Sc → Bool) (k : String) (c : Bool) (x : Sc) (h :
   · rfl
 
 /-- `schema30` emits only members the 3.0 Schema Object admits, with admissible values -/
-theorem head30_ok (h : Head) (hr : h.required.Nodup) : (head30 h).all (attrOK .v30) = true := by
-  simp only [head30, all_append, Bool.and_eq_true]
+theorem head30r_ok (h : Head) (hr : h.required.Nodup) : (head30r h).all (attrCoreOK .v30) = true := by
+  simp only [head30r, all_append, Bool.and_eq_true]
   refine ⟨⟨⟨⟨⟨⟨⟨⟨⟨⟨⟨⟨?_, ?_⟩, ?_⟩, ?_⟩, ?_⟩, ?_⟩, ?_⟩, ?_⟩, ?_⟩, ?_⟩, ?_⟩, ?_⟩, ?_⟩
-  · exact all_optAttr _ _ _ _ fun hc => attrOK_enum _ _ (by simpa using hc)
-  · exact all_optAttr _ _ _ _ fun _ => attrOK_strKey _ (s "example") _ (by decide) (by decide)
+  · exact all_optAttr _ _ _ _ fun hc => attrCoreOK_enum _ _ (by simpa using hc)
+  · exact all_optAttr _ _ _ _ fun _ => attrCoreOK_strKey _ (s "example") _ (by decide) (by decide)
   · exact all_optAttr _ _ _ _ fun _ => by decide
   · exact all_optAttr _ _ _ _ fun _ => by decide
-  · exact all_optAttr _ _ _ _ fun _ => attrOK_strKey _ (s "format") _ (by decide) (by decide)
-  · cases h.maxLength <;> simp [attrOK_len .v30 (s "maxLength") _ (by decide)]
-  · cases h.maximum <;> simp [attrOK_bound .v30 (s "maximum") _ (by decide) (by decide)]
-  · cases h.minLength <;> simp [attrOK_len .v30 (s "minLength") _ (by decide)]
-  · cases h.minimum <;> simp [attrOK_bound .v30 (s "minimum") _ (by decide) (by decide)]
+  · exact all_optAttr _ _ _ _ fun _ => attrCoreOK_strKey _ (s "format") _ (by decide) (by decide)
+  · cases h.maxLength <;> simp [attrCoreOK_len .v30 (s "maxLength") _ (by decide)]
+  · cases h.maximum <;> simp [attrCoreOK_bound .v30 (s "maximum") _ (by decide) (by decide)]
+  · cases h.minLength <;> simp [attrCoreOK_len .v30 (s "minLength") _ (by decide)]
+  · cases h.minimum <;> simp [attrCoreOK_bound .v30 (s "minimum") _ (by decide) (by decide)]
   · exact all_optAttr _ _ _ _ fun _ => by decide
-  · exact all_optAttr _ _ _ _ fun _ => attrOK_strKey _ (s "pattern") _ (by decide) (by decide)
-  · exact all_optAttr _ _ _ _ fun hc => attrOK_required _ _ (by simpa using hc) hr
-  · exact all_optAttr _ _ _ _ fun hc => attrOK_type_str _ _ (by simpa using hc)
+  · exact all_optAttr _ _ _ _ fun _ => attrCoreOK_strKey _ (s "pattern") _ (by decide) (by decide)
+  · exact all_optAttr _ _ _ _ fun hc => attrCoreOK_required _ _ (by simpa using hc) hr
+  · exact all_optAttr _ _ _ _ fun hc => attrCoreOK_type_str _ _ (by simpa using hc)
 
 
-theorem attrOK31_strs_examples (xs : List B) : attrOK .v31 (s "examples", .strs xs) = true := by
+theorem attrCoreOK31_strs_examples (xs : List B) : attrCoreOK .v31 (s "examples", .strs xs) = true := by
   have h1 : s "examples" ≠ s "required" := by decide
   have h2 : s "examples" ≠ s "enum" := by decide
   have h3 : s "examples" ≠ s "type" := by decide
-  simp [attrOK, h1, h2, h3]
+  simp [attrCoreOK, h1, h2, h3]
 
-theorem attrOK31_type_null (k : Kind) (h : kindString k ≠ []) :
-    attrOK .v31 (s "type", .strs [kindString k, s "null"]) = true := by
+theorem attrCoreOK31_type_null (k : Kind) (h : kindString k ≠ []) :
+    attrCoreOK .v31 (s "type", .strs [kindString k, s "null"]) = true := by
   have h1 : s "type" ≠ s "required" := by decide
   have h2 : s "type" ≠ s "enum" := by decide
   have hk := kind_ok k h
   simp only [contains_eq_mem, decide_eq_true_eq] at hk
   have hne : kindString k ≠ s "null" := by cases k <;> first | exact absurd rfl h | decide
-  simp [attrOK, h1, h2, nodupB, hk, hne]
+  simp [attrCoreOK, h1, h2, nodupB, hk, hne]
 
-theorem attrOK31_exclusive (key : B) (x : B) (hm : key ∈ [s "exclusiveMaximum", s "exclusiveMinimum"]) :
-    attrOK .v31 (key, .num x) = true := by
+theorem attrCoreOK31_exclusive (key : B) (x : B) (hm : key ∈ [s "exclusiveMaximum", s "exclusiveMinimum"]) :
+    attrCoreOK .v31 (key, .num x) = true := by
   simp only [mem_cons, not_mem_nil, or_false] at hm
-  rcases hm with rfl | rfl <;> simp [attrOK] <;> exact Or.inl (by decide)
+  rcases hm with rfl | rfl <;> simp [attrCoreOK] <;> exact Or.inl (by decide)
 
-theorem attrOK31_contentEncoding (x : B) : attrOK .v31 (s "contentEncoding", .str x) = true := by
+theorem attrCoreOK31_contentEncoding (x : B) : attrCoreOK .v31 (s "contentEncoding", .str x) = true := by
   have h1 : s "contentEncoding" ≠ s "type" := by decide
-  simp [attrOK, h1]
+  simp [attrCoreOK, h1]
 
 /-- `schema31` emits only members with admissible values -/
-theorem head31_ok (h : Head) (hr : h.required.Nodup) : (head31 h).all (attrOK .v31) = true := by
-  simp only [head31, all_append, Bool.and_eq_true]
-  refine ⟨⟨⟨⟨⟨⟨⟨⟨⟨⟨⟨⟨⟨?_, ?_⟩, ?_⟩, ?_⟩, ?_⟩, ?_⟩, ?_⟩, ?_⟩, ?_⟩, ?_⟩, ?_⟩, ?_⟩, ?_⟩, ?_⟩
-  · exact all_optAttr _ _ _ _ fun _ => attrOK31_contentEncoding _
-  · exact all_optAttr _ _ _ _ fun hc => attrOK_enum _ _ (by simpa using hc)
-  · exact all_optAttr _ _ _ _ fun _ => attrOK_strKey _ (s "example") _ (by decide) (by decide)
-  · exact all_optAttr _ _ _ _ fun _ => attrOK31_strs_examples _
-  · rcases h.maximum with _ | ⟨x, _ | _⟩ <;> simp [attrOK31_exclusive (s "exclusiveMaximum") _ (by decide)]
-  · rcases h.minimum with _ | ⟨x, _ | _⟩ <;> simp [attrOK31_exclusive (s "exclusiveMinimum") _ (by decide)]
-  · exact all_optAttr _ _ _ _ fun _ => attrOK_strKey _ (s "format") _ (by decide) (by decide)
-  · cases h.maxLength <;> simp [attrOK_len .v31 (s "maxLength") _ (by decide)]
-  · rcases h.maximum with _ | ⟨x, _ | _⟩ <;> simp [attrOK_bound .v31 (s "maximum") _ (by decide) (by decide)]
-  · cases h.minLength <;> simp [attrOK_len .v31 (s "minLength") _ (by decide)]
-  · rcases h.minimum with _ | ⟨x, _ | _⟩ <;> simp [attrOK_bound .v31 (s "minimum") _ (by decide) (by decide)]
-  · exact all_optAttr _ _ _ _ fun _ => attrOK_strKey _ (s "pattern") _ (by decide) (by decide)
-  · exact all_optAttr _ _ _ _ fun hc => attrOK_required _ _ (by simpa using hc) hr
+theorem head31r_ok (h : Head) (hr : h.required.Nodup) : (head31r h).all (attrCoreOK .v31) = true := by
+  simp only [head31r, all_append, Bool.and_eq_true]
+  refine ⟨⟨⟨⟨⟨⟨⟨⟨⟨⟨⟨⟨?_, ?_⟩, ?_⟩, ?_⟩, ?_⟩, ?_⟩, ?_⟩, ?_⟩, ?_⟩, ?_⟩, ?_⟩, ?_⟩, ?_⟩
+  · exact all_optAttr _ _ _ _ fun hc => attrCoreOK_enum _ _ (by simpa using hc)
+  · exact all_optAttr _ _ _ _ fun _ => attrCoreOK_strKey _ (s "example") _ (by decide) (by decide)
+  · exact all_optAttr _ _ _ _ fun _ => attrCoreOK31_strs_examples _
+  · rcases h.maximum with _ | ⟨x, _ | _⟩ <;> simp [attrCoreOK31_exclusive (s "exclusiveMaximum") _ (by decide)]
+  · rcases h.minimum with _ | ⟨x, _ | _⟩ <;> simp [attrCoreOK31_exclusive (s "exclusiveMinimum") _ (by decide)]
+  · exact all_optAttr _ _ _ _ fun _ => attrCoreOK_strKey _ (s "format") _ (by decide) (by decide)
+  · cases h.maxLength <;> simp [attrCoreOK_len .v31 (s "maxLength") _ (by decide)]
+  · rcases h.maximum with _ | ⟨x, _ | _⟩ <;> simp [attrCoreOK_bound .v31 (s "maximum") _ (by decide) (by decide)]
+  · cases h.minLength <;> simp [attrCoreOK_len .v31 (s "minLength") _ (by decide)]
+  · rcases h.minimum with _ | ⟨x, _ | _⟩ <;> simp [attrCoreOK_bound .v31 (s "minimum") _ (by decide) (by decide)]
+  · exact all_optAttr _ _ _ _ fun _ => attrCoreOK_strKey _ (s "pattern") _ (by decide) (by decide)
+  · exact all_optAttr _ _ _ _ fun hc => attrCoreOK_required _ _ (by simpa using hc) hr
   · by_cases hk : kindString h.kind = []
     · simp [hk]
     · by_cases hn : h.nullable = true
-      · simp [hk, hn, attrOK31_type_null h.kind hk]
-      · simp [hk, hn, attrOK_type_str .v31 h.kind hk]
+      · simp [hk, hn, attrCoreOK31_type_null h.kind hk]
+      · simp [hk, hn, attrCoreOK_type_str .v31 h.kind hk]
+
+theorem all_attrOK_of_core (v : Version) (l : Attrs) (h : l.all (attrCoreOK v) = true) : l.all (attrOK v) = true := by
+  simp only [all_eq_true] at h ⊢
+  intro a ha
+  simp [attrOK, h a ha]
+
+theorem dfltAttrs_ok (v : Version) (h : Head) : (dfltAttrs h).all (attrOK v) = true := by
+  unfold dfltAttrs
+  cases h.dflt <;> simp [attrOK]
+
+theorem head30_ok (h : Head) (hr : h.required.Nodup) : (head30 h).all (attrOK .v30) = true := by
+  simp only [head30, all_append, Bool.and_eq_true]
+  exact ⟨dfltAttrs_ok _ h, all_attrOK_of_core _ _ (head30r_ok h hr)⟩
+
+theorem head31_ok (h : Head) (hr : h.required.Nodup) : (head31 h).all (attrOK .v31) = true := by
+  simp only [head31, all_append, Bool.and_eq_true]
+  refine ⟨⟨?_, dfltAttrs_ok _ h⟩, all_attrOK_of_core _ _ (head31r_ok h hr)⟩
+  exact all_attrOK_of_core _ _ (all_optAttr _ _ _ _ fun _ => attrCoreOK31_contentEncoding _)
 
 /-! ## wfSchema of a projected schema -/
 
